@@ -885,8 +885,10 @@ def run_impl(ctx, seqs, chunk):
     metas = [None] * len(seqs)
     crashes = []
     tdrv = 0.0
+    # a chunk of the clean implementation takes seconds; a hanging implementation must not stall the check for hours
+    t_chunk = 150 if ctx.tier == "quick" else 600
     with ThreadPoolExecutor(max_workers=C.NCPU) as ex:
-        res = list(ex.map(lambda s: run_chunk(ctx, seqs[s[0]:s[1]]), spans))
+        res = list(ex.map(lambda s: run_chunk(ctx, seqs[s[0]:s[1]], timeout=t_chunk), spans))
     redo = []
     for (a, b), (r, err) in zip(spans, res):
         if r is not None and len(r.get("out", [])) == b - a:
@@ -895,11 +897,15 @@ def run_impl(ctx, seqs, chunk):
             tdrv += r.get("t", 0.0)
         else:
             redo.append((a, b, err or "driver returned %d results for %d sequences" % (len(r.get("out", [])), b - a)))
-    for a, b, err in redo:
-        # the chunk's process died: run its sequences one per process to find the culprit(s)
+    for k, (a, b, err) in enumerate(redo):
+        # the chunk's process died or hung: run its sequences one per process to find the culprit(s)
+        # (only for the first few such chunks: one culprit is enough for a verdict)
         idx = list(range(a, b))
+        if k >= 2:
+            crashes.append({"indices": idx, "error": err})
+            continue
         with ThreadPoolExecutor(max_workers=C.NCPU) as ex:
-            single = list(ex.map(lambda i: run_chunk(ctx, [seqs[i]], timeout=300), idx))
+            single = list(ex.map(lambda i: run_chunk(ctx, [seqs[i]], timeout=60), idx))
         dead = []
         for i, (r, e) in zip(idx, single):
             if r is not None and len(r.get("out", [])) == 1:
@@ -1248,7 +1254,7 @@ def run(ctx, seqs_override=None, large_override=None):
     large = None
     if large_override is not None:
         large = run_large(ctx, large_override)
-    elif seqs_override is None:
+    elif seqs_override is None and not crashes_all:
         large = run_large(ctx)
     if large:
         n_ops += large["ops"]
